@@ -524,3 +524,75 @@ def race_cases(rng: random.Random, n: int):
                 evs.append(f"raceprocs {rng.choice([2, 3])}")
         cases.append(f"race r{i}\n" + "\n".join("ev " + e for e in evs) + "\nend\n")
     return cases
+
+
+
+def powerloss_corpus():
+    """re-put of content that an acknowledged key already references (the rename replaces a durable
+    blob), rollover + checkpoint, large blobs"""
+    return [
+        "case plc_reput\ncfg kt=bytes n=100 sync=1\nopen\nput 6b31 G:9:50000\nput 6b32 G:9:50000\nput 6b31 G:9:50000\nclose\nend\n",
+        "case plc_reput_small\ncfg kt=bytes n=2 sync=1\nopen\nput 61 5858\nput 62 5858\nremove 61\nput 63 5858\nclose\nend\n",
+        "case plc_roll\ncfg kt=bytes n=1 sync=1\nopen\nput 61 01\nput 62 G:4:9000\nput 61 02\ncheckpoint\nremove 62\nclose\nend\n",
+    ]
+
+
+# ------------------------------------------------------------------ C08: planted garbage and clean-up
+def orphan_case(name, rng: random.Random, noncanonical=False):
+    """history, then garbage planted into the closed directory is impossible through the API, so
+    the garbage is planted BEFORE the first open (the store ignores it until the scan) together with
+    leftovers that crashes produce: unreferenced blobs, staging files, bad names at every level"""
+    kt = "bytes"
+    keys = key_pool(kt, rng, 3)
+    contents = [b"XX", b"hello", b"Z" * 40, b""]
+    lines = [f"case {name}", f"cfg kt={kt} n={rng.choice([2, 3, 100])} sync=1 verify={rng.choice([0, 1])} failint=0"]
+    import hashlib
+    planted = []
+    def hx(c):
+        return oracle_hash(c)
+    for _ in range(rng.choice([1, 2, 3])):
+        c = rng.choice(contents + [b"orphan-a", b"orphan-b"])
+        h = hx(c)
+        lines.append(f"plant cas/{h[0:2]}/{h[2:4]}/{h[4:]} {hexs(c)}")
+    r = rng.random()
+    if r < 0.5:
+        lines.append(f"plant cas/junk {hexs(b'x')}")
+    if rng.random() < 0.5:
+        lines.append(f"plant cas/ab/junk2 {hexs(b'y')}")
+    if rng.random() < 0.5:
+        lines.append(f"plant cas/ab/cd/not-a-hash {hexs(b'z')}")
+    if rng.random() < 0.4:
+        lines.append(f"plant cas/ab/cd/{'0' * 59} {hexs(b'short')}")
+    if rng.random() < 0.5:
+        lines.append(f"plant staging/#0 {hexs(b'left over')}")
+    if rng.random() < 0.3:
+        # corrupted referenced blob is produced later by putting then planting is impossible; a blob with
+        # the wrong content under a canonical name is an orphan whose bytes do not match
+        h = hx(b"orphan-c")
+        lines.append(f"plant cas/{h[0:2]}/{h[2:4]}/{h[4:]} {hexs(b'wrong bytes')}")
+    if noncanonical:
+        h = hx(rng.choice([b"nc-1", b"XX"]))
+        if rng.random() < 0.5:
+            lines.append(f"plant cas/{h[0:2].upper()}/{h[2:4]}/{h[4:]} {hexs(b'nc')}")
+        else:
+            lines.append(f"plant cas/{h[0:1]}/{h[1:4]}/{h[4:]} {hexs(b'nc')}")
+    lines.append("open")
+    for _ in range(rng.choice([1, 2, 4])):
+        k = hexs(rng.choice(keys))
+        lines.append(f"put {k} {hexs(rng.choice(contents))}" if rng.random() < 0.8 else f"remove {k}")
+    lines += ["obs", "close", "open", "obs"]
+    q = rng.random()
+    if q < 0.6:
+        lines += ["delorphans", "obs"]
+    elif q < 0.8:
+        lines += ["quarantine", "obs", "delorphans", "obs"]
+    else:
+        h = hx(b"orphan-a")
+        lines += [f"delorphan {h}", "obs", "delorphans", "obs"]
+    lines += [f"get {hexs(k)}" for k in keys] + ["close", "open", "obs", "close", "end"]
+    return "\n".join(lines) + "\n"
+
+
+def oracle_hash(c: bytes) -> str:
+    import oracle
+    return oracle.HASH(c)
